@@ -11,6 +11,9 @@ Transcribed (of the repaired tree, see design_notes/C10.md):
 * `Module.writeInitParams` + head of `__pollThread`  modulebase.py:726-737, 797-821 → `prologue`
 * `SecNode.get_module_instance` / `create_modules`   secnode.py:99-165 → `createNode`
 * `Config.merge_modules` / `load_config`             config.py:113-135, 186-215 → `mergeModules`, `loadConfig`
+* `Param.__init__`, `Mod.__init__` (bare values, `Group`)  config.py:53-90 → `paramDict`, `modArgStep`, `setGroup`, `modDict`
+* the `continue` for optional accessibles             modulebase.py:405-411 → `AccDecl`, `accLoop`, `implemented`
+* cfg of a `Command` (`Command.setProperty`)          modulebase.py:476-486, params.py:505-514 → `cmdEntries`, `applyCommands`
 
 Datatypes are ORACLES (`Ops`): conversion `dt(x)`, validation `dt.validate(x)`, `setProperty`,
 `checkProperties`.  The class description is data.  Quirks kept:
